@@ -15,6 +15,8 @@ LEVEL = {
  "C18": ("exhaustive symbolic execution of TLSClientAuth over the whole option lattice with the crypto/file environment stubbed by nondeterministic outcomes; witnesses replayed against real crypto with the repository's fixtures", "DESIGN.md §2 C18"),
  "C19": ("verify() on duplicate-free lists of ≤2 (quick) / ≤3 (thorough) one-byte symbolic names with set-equality/sortedness oracles decided by SMT; Validate() over description × registration-variation catalogue (exact, each omission, additions)", "DESIGN.md §2 C19"),
  "C20": ("spec and UI middlewares over option catalogues with symbolic bytes and request paths = document path variants ⧺ symbolic tails / raw symbolic bytes; composition as built by the API handlers over absolute spec URLs", "DESIGN.md §2 C20"),
+ "C15": ("byte-stream and text consumers/producers executed symbolically for contents of ≤2 (quick) / ≤3 (thorough) symbolic bytes over every documented destination/payload kind (plus nil, non-pointer, unsupported, pre-populated), readers with arbitrary chunking, empty reads, data+EOF and failures after any byte, sinks failing at any offset, closing option on/off; reflect calls through the engine's reflect model", "DESIGN.md §2 C15"),
+ "C16": ("CSV consumer/producer over every CSV text of ≤3 (quick) / ≤4 (thorough) symbolic bytes through the real encoding/csv reader/writer, 8 option sets, 10 destination and 8 source kinds (incl. io.WriterTo through the real io.Pipe/errgroup goroutines); oracle = csv.Reader.ReadAll with the same options; kinds agree pairwise, no partial success, no aliasing, no panic for any destination pre-state", "DESIGN.md §2 C16"),
  "C17": ("every sequence of ≤3 (quick) / ≤4 (thorough) HasBody/Read/Close operations over a body of ≤2/≤3 symbolic bytes with nondeterministic chunking, empty reads, data+EOF and failures at any offset, through the real bufio.Reader", "DESIGN.md §2 C17"),
 }
 NOTE = "trusted: go/packages+go/ssa, the symgo interpreter with its leaf models (bytealg, sync, atomic, reflect, time), z3; configurations limited to the stated catalogues; see evidence.assumptions"
